@@ -190,6 +190,45 @@ theorem quiescent_fire_all_exact (rules : List Rule) (ops touch : List Op)
     e0.fireAll.1.wm = e0.wm ∧ e0.fireAll.1.ag.acts = [] :=
   quiescent_fire_all_exact_bound 1000 rules ops touch hq hn hwf ht
 
+/-- the clause below for the loop run with an arbitrary iteration bound `B` (the code: `B = 1000`) -/
+theorem quiescent_fire_all_exact_after_firing_bound (B : Nat) (rules : List Rule) (ops : List Op)
+    (hq : quietRules rules = true) (hn : (rules.map (·.name)).Nodup) (hwf : ∀ o ∈ ops, o.WF) (hb : rules.length ≤ B) :
+    let e0 := ({ rules := rules } : Engine).run ops
+    let fired := (fireLoop B e0 []).2.map (·.rule)
+    fired ≠ [] →
+    ∀ r ∈ rules, r.name ∉ e0.ag.fired →
+      (∃ f ∈ e0.wm.getAllFacts, f.ty = r.ty ∧ r.node.eval f.ty f.data = true) → r.name ∈ fired := by
+  intro e0 fired hne r hr hnf ⟨f, hf, hty, hev⟩
+  have hQ := quiet_of hq
+  have hinv0 : Inv rules e0 := inv_run hQ ops _ hwf (inv_init rules)
+  obtain ⟨new, h1, P⟩ := fireLoop_exact rules e0.wm hQ hn hinv0.wm hinv0.data B e0 [] rfl hinv0.rules_eq hinv0.ag hinv0.typed (by
+    have h3 : unfired rules e0.ag.fired ≤ rules.length := List.length_filter_le _ _
+    omega)
+  have hnew : (fireLoop B e0 []).2 = new := by simpa using h1
+  have hfired : fired = new.map (·.rule) := by simp only [fired, hnew]
+  have hnn : new ≠ [] := by
+    intro h; apply hne; rw [hfired, h]; rfl
+  rcases (P.fired_iff r.name).1 (P.after hnn r hr f hf hty hev) with h | h
+  · exact absurd h hnf
+  · rw [hfired]; exact h
+
+/-- **quiescent_fire_all_exact, for every `fire_all` call that fires anything.**  The freshness hypothesis of
+`quiescent_fire_all_exact` (every live fact inserted or updated since the last `fire_all`) is only needed to get the FIRST
+activation: activations are created by propagation, and `reset` creates none.  Once one rule has fired, the engine re-evaluates
+every rule that has not fired since the last `reset` on every live fact of its type (`propagate_changes`), so — for quiet rule
+sets with distinct names, at most 1000 of them, after ANY history `ops` (earlier `fire_all` calls and resets included, facts of
+other types inserted long ago, …) — a `fire_all` call that fires at least one rule fires EVERY rule that has not fired since the
+last `reset` and whose node is true on the current contents of some live fact of its type.  ("No rule twice, no other rule" hold
+for every call: `fire_all_firings_valid` and the `Nodup` part of `quiescent_fire_all_exact`.) -/
+theorem quiescent_fire_all_exact_after_firing (rules : List Rule) (ops : List Op)
+    (hq : quietRules rules = true) (hn : (rules.map (·.name)).Nodup) (hwf : ∀ o ∈ ops, o.WF) (hb : rules.length ≤ 1000) :
+    let e0 := ({ rules := rules } : Engine).run ops
+    let fired := e0.fireAll.2.map (·.rule)
+    fired ≠ [] →
+    ∀ r ∈ rules, r.name ∉ e0.ag.fired →
+      (∃ f ∈ e0.wm.getAllFacts, f.ty = r.ty ∧ r.node.eval f.ty f.data = true) → r.name ∈ fired :=
+  quiescent_fire_all_exact_after_firing_bound 1000 rules ops hq hn hwf hb
+
 /-- **quiescent_fire_all_exact, as an equivalence** for the histories in which the last `reset` (or the creation of the engine)
 comes after the last `fire_all` (so that no rule has fired since the last reset): the rules `fire_all` fires are exactly — and
 each exactly once — the rules whose node is true on the current contents of some live fact of the rule's type.
@@ -324,5 +363,57 @@ example :
     rcases hf with rfl | rfl
     · exact Or.inr ⟨[(0, .int 15)], by simp [exTouch]⟩
     · exact Or.inl (by decide +kernel)
+
+/-! ### the loader path (`GrlReteLoader`) -/
+
+/-- **the loader builds the node that was written**: a condition whose float literals all have a fractional part comes out of
+`loaderNode` (GRL text → `convert_condition_group`) unchanged, so the rule loaded from GRL is the rule built directly. -/
+theorem loader_exact_on_grl_literals (n : Node) (h : n.grlExact = true) : loaderNode n = n := by
+  induction n with
+  | alpha ty f op rhs =>
+    cases rhs with
+    | lit v =>
+      cases v with
+      | flt t =>
+        simp only [Node.grlExact, Val.grlExact, bne_iff_ne, ne_eq] at h
+        simp [loaderNode, loaderVal, h]
+      | _ => rfl
+    | var t2 f2 => rfl
+  | and l r ihl ihr =>
+    simp only [Node.grlExact, Bool.and_eq_true] at h
+    simp [loaderNode, ihl h.1, ihr h.2]
+  | or l r ihl ihr =>
+    simp only [Node.grlExact, Bool.and_eq_true] at h
+    simp [loaderNode, ihl h.1, ihr h.2]
+  | not n ih =>
+    simp only [Node.grlExact] at h
+    simp [loaderNode, ih h]
+
+/-- **a negation stays a negation**: the loaded node of `!(c)` is true exactly when the loaded node of `c` is false — in
+particular `!(T.f <op> x)` is TRUE of a fact in which `T.f` is absent (the comparison is false there, whatever the operator;
+the complementary comparison would be false as well). -/
+theorem loader_negation_kept (n : Node) (ty : Nat) (d : Data) :
+    (loaderNode (.not n)).eval ty d = !(loaderNode n).eval ty d := rfl
+
+theorem loader_negated_comparison_on_absent_field (ty f : Nat) (op : Cmp) (rhs : Rhs) (d : Data) (h : d.get f = none) :
+    (loaderNode (.not (.alpha ty f op rhs))).eval ty d = true := by
+  cases rhs <;> simp [loaderNode, Node.eval, h]
+
+/-- non-vacuity: `!(T0.f0 > 5)` on a fact without `f0`, with `f0 = null`, with a non-numeric string, and with 9 -/
+example : (loaderNode (.not (.alpha 0 0 .gt (.lit (.int 5))))).eval 0 [(1, .int 3)] = true := by decide
+example : (loaderNode (.not (.alpha 0 0 .gt (.lit (.int 5))))).eval 0 [(0, .null)] = true := by decide
+example : (loaderNode (.not (.alpha 0 0 .gt (.lit (.int 5))))).eval 0 [(0, .str 1)] = true := by decide
+example : (loaderNode (.not (.alpha 0 0 .gt (.lit (.int 5))))).eval 0 [(0, .int 9)] = false := by decide
+/-- the one literal the round trip changes: 15.0 comes back as the integer 15 (`==` is structural) -/
+example : loaderNode (.alpha 0 0 .eq (.lit (.flt 30))) = .alpha 0 0 .eq (.lit (.int 15)) := by decide
+
+/-- non-vacuity (the history of seeded change C06-6): Customer rule, Order rule; insert a customer, fire_all, reset, insert an
+order, fire_all — the customer was not touched since the last fire_all, yet both rules fire, because `bigOrder` fires first -/
+example :
+    let rules : List Rule := [adult, { name := 1, ty := 1, node := .alpha 1 0 .gt (.lit (.int 100)), prio := 0, noLoop := true }]
+    let ops : List Op := [.insert 0 [(0, .int 30)], .fire, .reset, .insert 1 [(0, .int 500)]]
+    quietRules rules = true ∧ (rules.map (·.name)).Nodup ∧ (∀ o ∈ ops, o.WF) ∧
+    ((({ rules := rules } : Engine).run ops).fireAll.2.map (·.rule)) = [1, 0] := by
+  refine ⟨by decide, by decide, by decide, by decide +kernel⟩
 
 end C06
